@@ -132,6 +132,17 @@ FLAG_SAME = HEAD + """        flag = std.SyncFlag()
 """
 
 
+TIE_TAIL = """
+Theorem {name} : forall ins, Forall (fun i => In i alphabet) ins ->
+  Forall (fun o => o = okout)
+         (traceA (mstep_s d false (chan_monitor {k}%Z true)) (power_up_s d, [0%Z; 0%Z; 0%Z; 0%Z]) ins).
+Proof.
+  apply (ho_traces_tie d false alphabet {tx} {rx} {g} {p} {w}%N {k}%Z true case_ok);
+    [vm_compute; reflexivity|vm_compute; discriminate].
+Qed.
+"""
+
+
 def delay_args(tx, rx):
     parts = []
     if tx:
@@ -166,66 +177,92 @@ def run(ck: common.Check, replay=None):
     metas.append({"component": "SyncFlag", "form": "same context", "tx_delay": 0, "rx_delay": 0, "payload": False})
     res = X.compile_designs(ck, designs)
     cases = []
-    model_cases = []
+    direct = {}   # tied configuration -> its direct monitor case (only explored if the tied file fails)
     for dsg, meta, r in zip(designs, metas, res):
         if not r["ok"]:
             ck.obligation(False)
             ck.violation({"config": dsg["name"]}, "wrapper around the real component no longer compiles: " + r["error"][:200],
                          {"source": dsg["source"], "error": r.get("trace", r["error"])}, no_input=True)
             continue
-        k = 2 * (meta["tx_delay"] + meta["rx_delay"]) + 3
+        tx, rx = meta["tx_delay"], meta["rx_delay"]
+        k = 2 * (tx + rx) + 3
         meta = dict(meta, source=dsg["source"], response_bound=k)
         strict = "false" if "coroutine" in meta["form"] else "true"
         # without payload the monitor sees dout = data = 0 (the dout port is never driven)
         mon = f"chan_monitor {k}%Z {strict}"
         overrides = None if meta["payload"] else {"din": "[VV KUns 1%N 0%Z]"}
-        cases.append(X.Case(dsg["name"], r["vhdl"], step=mon, init="[0%Z; 0%Z; 0%Z; 0%Z]", monitor=True,
-                            imports="From Cohdl Require Import Models.StdSpecs.", meta=meta, alphabet_overrides=overrides))
+        mon_case = X.Case(dsg["name"], r["vhdl"], step=mon, init="[0%Z; 0%Z; 0%Z; 0%Z]", monitor=True,
+                          imports="From Cohdl Require Import Models.StdSpecs.", meta=meta, alphabet_overrides=overrides)
         ck.hist("components", meta["component"] + "/" + meta["form"])
-        if meta["form"].startswith("two contexts"):
-            # second theorem for the same VHDL: the as-coded model of these delays (Models/Handover.v), about which
-            # Models/HandoverProofs.v proves exactly-once, the exact response bounds and the monitor for ALL delays
-            guarded = "false" if "unguarded" in meta["form"] else "true"
-            payload = "true" if meta["payload"] else "false"
-            w = 2 if meta["payload"] else 1
-            mmeta = dict(meta, reference="as-coded model ho_rstep (Models/Handover.v)")
-            del mmeta["response_bound"]
-            model_cases.append(X.Case(dsg["name"] + "_model", r["vhdl"],
-                                      step=f"ho_rstep {meta['tx_delay']} {guarded} {payload} {w}%N",
-                                      init=f"ho_init {meta['tx_delay']} {meta['rx_delay']}",
-                                      imports="From Cohdl Require Import Models.Handover.", meta=mmeta,
-                                      alphabet_overrides=overrides))
-    # the as-coded-model cases run in the same parallel batch, after the monitor cases.  The property is decided on
-    # the monitor: a difference between the VHDL and the as-coded model while the monitor theorem of the same
-    # configuration holds means Models/Handover.v no longer describes the code (the all-delay theorems no longer
-    # speak about it) and is reported as a correspondence that no longer checks, with the distinguishing input
-    # sequence in the replay; if the monitor theorem fails too it is a counterexample like any other.
-    failed = set()
-    orig_violation = ck.violation
+        if not meta["form"].startswith("two contexts"):
+            cases.append(mon_case)
+            continue
+        # two-context wrappers: ONE exploration, against the as-coded model of these delays (Models/Handover.v
+        # ho_rstep; reference-machine template: 'emitted VHDL trace = model trace for all input sequences'), and in
+        # the same file the monitor obligation of this configuration derived from it by the all-delay theorem
+        # ho_traces_tie (Models/HandoverProofs.v) - with the bound the direct monitor cases use and with the exact one
+        guarded = "false" if "unguarded" in meta["form"] else "true"
+        payload = "true" if meta["payload"] else "false"
+        w = 2 if meta["payload"] else 1
+        c = X.Case(dsg["name"] + "_model", r["vhdl"], step=f"ho_rstep {tx} {guarded} {payload} {w}%N",
+                   init=f"ho_init {tx} {rx}",
+                   imports="From Cohdl Require Import Equiv.Monitor Models.StdSpecs Models.Handover Models.HandoverProofs.",
+                   meta=dict(meta, reference="as-coded model ho_rstep (Models/Handover.v); monitor by ho_traces_tie",
+                             exact_response_bound=max(tx, rx)),
+                   alphabet_overrides=overrides)
+        c.tail = "".join(TIE_TAIL.format(name=n, k=kk, tx=tx, rx=rx, g=guarded, p=payload, w=w)
+                         for n, kk in (("monitor_ok", k), ("monitor_exact_ok", max(tx, rx))))
+        cases.append(c)
+        direct[c.name] = mon_case
+    # The property is decided on the monitor.  If a tied file fails, the direct monitor case of that configuration is
+    # explored: a difference between the VHDL and the as-coded model while the monitor theorem holds means
+    # Models/Handover.v no longer describes the code (the all-delay theorems no longer speak about it) and is reported
+    # as a correspondence that no longer checks, with the distinguishing input sequence in the replay; if the monitor
+    # fails too both are counterexamples like any other.
+    what_cex = "hand-over monitor flags on an input sequence (lost, duplicated, modified or unsolicited event)"
+    deferred, mon_failed = [], set()
+    orig_violation, orig_write = ck.violation, X.write_case
+
+    def write_case(ck_, c):
+        path = orig_write(ck_, c)
+        if getattr(c, "tail", None):
+            with open(path, "a") as f:
+                f.write(c.tail)
+        return path
 
     def violation(key, what, replay, no_input=False):
         cfg = key.get("config", "")
-        if cfg.endswith("_model"):
-            what = "emitted VHDL and the as-coded model (Models/Handover.v) differ: " + what
-            if cfg[:-6] not in failed:
+        if cfg in direct:
+            deferred.append((key, what, replay, no_input))
+            return False
+        mon_failed.add(cfg)
+        return orig_violation(key, what, replay, no_input)
+    ck.violation, X.write_case = violation, write_case
+    try:
+        results = X.run_cases(ck, cases, what_cex, key_of=lambda c: {"config": c.name})
+        for c, status, _ in results:
+            if c.name in direct and status == "ok":
+                ck.obligation(True)   # monitor_ok
+                ck.obligation(True)   # monitor_exact_ok
+        if deferred:
+            X.run_cases(ck, [direct[key["config"]] for key, _, _, _ in deferred], what_cex,
+                        key_of=lambda c: {"config": c.name}, count_first=0)
+    finally:
+        ck.violation, X.write_case = orig_violation, orig_write
+    for key, what, replay, no_input in deferred:
+        if replay.get("status") == "cex":
+            what = "emitted VHDL and the as-coded model (Models/Handover.v) differ on an input sequence"
+            if key["config"][:-6] not in mon_failed:
                 what += " [the monitor theorem of this configuration holds: the model is out of date]"
                 no_input = True
-        else:
-            failed.add(cfg)
-        return orig_violation(key, what, replay, no_input)
-    ck.violation = violation
-    try:
-        X.run_cases(ck, cases + model_cases,
-                    "hand-over monitor flags on an input sequence (lost, duplicated, modified or unsolicited event)",
-                    key_of=lambda c: {"config": c.name})
-    finally:
-        ck.violation = orig_violation
-    ck.cov["as_coded_model_cases"] = len(model_cases)
+        ck.violation(key, what, replay, no_input)
+    ck.cov["as_coded_model_cases"] = len(direct)
     ck.cov["all_delays"] = ("Models/HandoverProofs.v: for every tx_delay, rx_delay >= 0, every payload and every input sequence the "
                             "as-coded model hands over exactly once, in order, unmodified; a send is visible to the consumer after "
                             "exactly tx_delay clocks, a receive to the producer after exactly rx_delay clocks; chan_monitor K never "
                             "flags for any K >= max(tx_delay, rx_delay); the '*_model' cases tie the model to the emitted VHDL per "
-                            "configuration (C15_code_satisfies_monitor_all_delays, C15_code_exactly_once_all_delays)")
+                            "configuration and derive its monitor theorems (bound 2(tx+rx)+3 and exact bound max(tx,rx)) by "
+                            "C15_code_trace_implies_monitor_all_delays; C15_code_exactly_once_all_delays applies to each of them")
     ck.cov["rule"] = ("one case per (component, usage form, tx_delay, rx_delay); each case is a theorem over all input "
                       "sequences (all relative timings, all payloads); all are non-trivial")
     ck.trusted += ["fail-closed VHDL reader", "Vhdl.Sem (modelled VHDL-93 simulation cycle)",
